@@ -214,11 +214,22 @@ func TestReproArrivalOrder(t *testing.T) {
 func TestReproParallelContainerLoadsShareFieldEntry(t *testing.T) {
 	r := newRepro(t, nil)
 	r.m = node.NewModel(10_000)
-	const n = 65536 + 12000
-	var batch []node.Point
+	const n = 65536 + 4000
+	// the metric's slot range spans the hour: every series load walks 360 slots over the shared entry
+	batch := []node.Point{
+		{Metric: "m", Timestamp: r.t0 + 1000, Tags: map[string]string{"uid": "e0", "host": "edge"}, Fields: []node.Field{sum("f", 0.5)}},
+		{Metric: "m", Timestamp: r.t0 + 359*10_000 + 1000, Tags: map[string]string{"uid": "e1", "host": "edge"}, Fields: []node.Field{sum("f", 0.5)}},
+	}
+	// a host selects 500 series of each container (series ids follow creation order): both loads take the same time
+	hostOf := func(i int) int {
+		if i+2 < 65535 {
+			return i % 131
+		}
+		return i % 8
+	}
 	for i := 0; i < n; i++ {
 		batch = append(batch, node.Point{Metric: "m", Timestamp: r.t0 + int64(50+i%12)*10_000 + 1000,
-			Tags:   map[string]string{"uid": fmt.Sprintf("u%d", i), "host": fmt.Sprintf("h%d", i%8)},
+			Tags:   map[string]string{"uid": fmt.Sprintf("u%d", i), "host": fmt.Sprintf("h%d", hostOf(i))},
 			Fields: []node.Field{sum("f", float64(i+1))}})
 		if len(batch) == 4000 || i == n-1 {
 			if _, err := r.n.Write(batch); err != nil {
